@@ -398,7 +398,9 @@ impl<'w> Judge<'w> {
                         v.push(viol(case, "skip_advance", site.clone(), format!("skip consumed {} bytes of a value of {} bytes", o.consumed, n)));
                     }
                     if let Some(nx) = &o.next {
-                        if !matches!(nx, Ok(t) if *t == trailer_tv()) {
+                        // what follows is the standard trailer, or (short-tail cases) a single STOP byte = an empty struct
+                        let expected = if case.bytes.len() == n + 1 && case.bytes[n] == 0 { crate::tval::TV::Struct(vec![]) } else { trailer_tv() };
+                        if !matches!(nx, Ok(t) if *t == expected) {
                             v.push(viol(case, "skip_next", site.clone(), format!("what follows the skipped value decoded as {}", brief_next(nx))));
                         } else {
                             stats.bump("probe.trailer_after_skip_ok");
